@@ -1521,7 +1521,7 @@ def remove_stns_sinex(sinex, sites):
         header = read_sinex_header_line(sinex)
         old_creation_time = header[15:27]
         creation_time = set_creation_time()
-        header = header.replace(old_creation_time, creation_time)
+        header = header[:15] + creation_time + header[27:]
         old_num_params = header[60:65]
         if header[70:71] == 'V':
             num_stn_params = 6
@@ -1536,7 +1536,7 @@ def remove_stns_sinex(sinex, sites):
         del solution_epochs
         num_params = int(old_num_params) - num_stn_params * num_stns_to_remove
         num_params = '{:05d}'.format(num_params)
-        header = header.replace(str(old_num_params), str(num_params))
+        header = header[:60] + num_params + header[65:]
         out.write(header)
 
         out.write("*-------------------------------------------------------------------------------\n")
@@ -1694,11 +1694,11 @@ def remove_velocity_sinex(sinex):
         # - then write to file
         old_creation_time = header[15:27]
         creation_time = set_creation_time()
-        header = header.replace(old_creation_time, creation_time)
+        header = header[:15] + creation_time + header[27:]
         old_num_params = int(header[60:65])
-        num_params = int(old_num_params / 2)
-        header = header.replace(str(old_num_params), str(num_params))
-        header = header.replace('V', '')
+        num_params = '{:05d}'.format(int(old_num_params / 2))
+        header = header[:60] + num_params + header[65:]
+        header = (header[:70] + header[71:]).rstrip()
         out.write(header)
         out.write("\n")
         del header
@@ -1860,7 +1860,7 @@ def remove_matrixzeros_sinex(sinex):
         header = read_sinex_header_line(sinex)
         old_creation_time = header[15:27]
         creation_time = set_creation_time()
-        header = header.replace(old_creation_time, creation_time)
+        header = header[:15] + creation_time + header[27:]
         out.write(header)
         del header
 
